@@ -2,6 +2,7 @@
    The race-freedom theorems are decided on the access tables regenerated from the source on every run. *)
 From Coq Require Import String List Bool Arith.
 From GN Require Import Gen.LoopAccess Gen.RegistryAccess Model.LoopAccess Model.RegistryShare Proofs.RegistryShareProofs.
+From GN Require Import Gen.UtilFormat Model.ConsoleSrc.
 From GN Require Import Common.Base Model.Loop Proofs.LoopProps.
 Import ListNotations.
 
@@ -51,3 +52,9 @@ Example C17_nonvacuous :
   let ok := fun p => negb (Nat.eqb p 2%nat) in
   loads (requests ok empty [0; 1; 0; 2; 1; 2; 0]%nat) = [0; 1; 2; 2]%nat /\ length loop_access = 93%nat /\ length registry_access = 12%nat.
 Proof. vm_compute. repeat split. Qed.
+
+(* every function of console/module.go and util/module.go (what is created per runtime, what is looked up at call time) has
+   the text the model and the claims of this property were written against (regenerated from the source on every run) *)
+Theorem C17_console_util_source_tie : console_util_src = expected_console_util_src.
+Proof. vm_compute. reflexivity. Qed.
+Print Assumptions C17_console_util_source_tie.
